@@ -41,6 +41,8 @@ STRENGTHENED = {
     'C12_3': 'volumes periodic in the third direction with 1-3 lowering levels, square and non-square nets',
     'C01_4': '=caught by the pyx translator obligation only (no failing input); generator then extended: bases placed far from the origin (|knots| >= 2^21)',
     'C02_4': 'several evaluation calls on ONE object, checked against the object as built, control points compared bit-for-bit; rational objects with end weights != 1',
+    'C01_7': '=caught by the pyx translator obligation only (no failing input); generator then extended: non-open knot vectors with arbitrary multiplicities, in particular the domain-end knot repeated inside the function range; library exceptions inside an oracle experiment count as failing inputs when model and implementation disagree',
+    'C02_7': '=caught by the source translator obligation only (no failing input); generator then extended: affinely related bases in two directions evaluated with the SAME list/array object for both',
     'C16_3': '=caught, but without a failing input; oracle then extended: volumes with mixed orders (p,q,p) and full-degree nets; independent high-order quadrature oracle',
 }
 dm = os.path.join(V, 'DESIGN.md')
